@@ -62,7 +62,9 @@ func tokenOf(u uuid.UUID) int { return int(binary.BigEndian.Uint64(u[8:16])) }
 
 // static fields of a point (functions of the token); "k" is the payload that updates change
 func pointData(id int, k int64) map[string]any {
-	d := map[string]any{"k": k, "g": int64(id % 3), "v": []float32{float32((id*37)%101) - 50, float32((id*11)%17) - 8}}
+	// all vectors on one line at distinct integer abscissae: with a query at a quarter-integer
+	// abscissa no two points are equidistant, so a shard's top-k is the same on every call
+	d := map[string]any{"k": k, "g": int64(id % 3), "v": []float32{float32((id*37)%1013) - 500, 0}}
 	switch id % 4 {
 	case 1:
 		d["m"] = int64((id * 7) % 5)
@@ -390,7 +392,7 @@ func mkSearch(kind, arg, limit, offset int) searchSpec {
 	switch kind {
 	case 0: // exact nearest neighbours, hybrid score = -distance
 		lq := []int{3, 10, 75}[arg%3]
-		q := []float32{float32((arg*13)%90) - 45, float32((arg*7)%14) - 7}
+		q := []float32{float32((arg*131)%900) - 450 + 0.25, 0}
 		sr.Query = models.Query{Property: "v", VectorFlat: &models.SearchVectorFlatOptions{Vector: q, Operator: models.OperatorNear, Limit: lq}}
 	case 1:
 		sr.Query = allQuery
